@@ -121,6 +121,7 @@ class UnitResult:
         self.samples = []
         self.outcomes = {}
         self.distinct = set()
+        self.cross = {}
 
     def ok(self):
         return not self.failures and not self.inconclusive
@@ -130,7 +131,7 @@ class UnitResult:
                     discharged=self.discharged, failures=self.failures, inconclusive=self.inconclusive,
                     queries=self.queries, solver_s=round(self.solver_s, 3), wall_s=round(self.wall_s, 3),
                     functions=sorted(self.functions), samples=self.samples, outcomes=self.outcomes,
-                    distinct=len(self.distinct))
+                    distinct=len(self.distinct), cross=dict(self.cross))
 
 
 def _selects(terms, name):
@@ -281,6 +282,10 @@ def run_unit(name, fn, max_paths=200000, max_seconds=600, sample_limit=2, trace_
     res.aborted = st.aborted
     res.queries = st.queries
     res.solver_s = st.solver_s
+    res.cross = dict(getattr(st, 'cross', {}))
+    if st.cross.get('disagree'):
+        res.inconclusive.append({'why': 'second solver (cvc5) answered sat on %d obligation(s) z3 discharged'
+                                        % st.cross['disagree']})
     if st.incomplete:
         res.inconclusive.append({'why': st.incomplete})
     # (unknown answers to branch-feasibility queries are conservative -- both alternatives are explored -- and do
